@@ -1433,12 +1433,24 @@ func evalBoolOnPath(v ssa.Value, path []*ssa.BasicBlock, atoms []CmpAtom, row in
 	case *ssa.BinOp:
 		e := Desc(x)
 		for ai, a := range atoms {
+			if a.Op == token.ILLEGAL {
+				continue
+			}
 			if m, pol := CmpMatch(e, a.Lhs, a.Op, a.Rhs); m {
 				val := row&(1<<ai) != 0
 				return val == pol, ""
 			}
 		}
 		return false, "branch tests something other than the declared atoms: " + trunc(e.String(), 160)
+	}
+	// truthiness atoms (Op == token.ILLEGAL): a boolean value matched by Lhs
+	{
+		e := Desc(v)
+		for ai, a := range atoms {
+			if a.Op == token.ILLEGAL && a.Lhs != nil && a.Lhs(e) {
+				return row&(1<<ai) != 0, ""
+			}
+		}
 	}
 	return false, "branch tests something other than the declared atoms: " + trunc(Desc(v).String(), 160)
 }
